@@ -738,7 +738,7 @@ impl Deserialise for ManagementAddress {
         let mgmt_addr_len = (buf
             .get_u8()
             .ok_or(pktparser::ParseError::UnexpectedEndOfInput)?)
-            - 1; /* -1 for sizeof<mgmt_addr_af> */
+        .wrapping_sub(1); /* -1 for sizeof<mgmt_addr_af>; 0 wraps to 255 and is rejected below */
         let mgmt_addr_af = buf
             .get_u8()
             .ok_or(pktparser::ParseError::UnexpectedEndOfInput)?;
